@@ -279,7 +279,14 @@ func DateTimeText(d types.DateTime) string {
 	t := time.Time(d)
 	y, m, dd := t.Date()
 	h, mi, s := t.Clock()
-	return fmt.Sprintf("%04d-%02d-%02d %02d:%02d:%02d", y, int(m), dd, h, mi, s)
+	text := fmt.Sprintf("%04d-%02d-%02d %02d:%02d:%02d", y, int(m), dd, h, mi, s)
+	// the value is an INSTANT: read in the process zone it must show the same wall clock (a date-time carried in some
+	// other zone with the right digits is a different instant: it compares, sorts and serialises differently)
+	l := t.In(time.Local)
+	if ly, lm, ld := l.Date(); ly != y || lm != m || ld != dd || l.Hour() != h || l.Minute() != mi || l.Second() != s {
+		text += fmt.Sprintf(" [instant reads %s in the process zone]", l.Format("2006-01-02 15:04:05 -0700"))
+	}
+	return text
 }
 
 func IPText(ip net.IP) string {
